@@ -182,6 +182,9 @@ def run (cfg : Cfg) (st : St) (op : String) (a : List Nat) (obs : Option (List N
     let c ← cur
     require (i < c.size)
     let set ← if w = 0 then c.training i else c.validation i
+    -- a part with a batch listed twice holds elements twice; the harness oracle identifies elements by id and skips such parts
+    let ids := set.flat.map (·.1)
+    require (ids.eraseDups.length == ids.length)
     let (pre, f) ← construct cfg set fn k bs x y obs
     fresh pre f (some (if fn = 5 then set else f.dataset))
   | _, _ => throw .undefined
